@@ -31,6 +31,7 @@ static int gen_c13(cs_t *cs, void *k, const runcfg_t *cfg) {
         o->kind = (uint8_t)kd;
         o->thread = (uint8_t)cs_range(cs, 0, nthreads - 1);
         o->h = o->kind <= OP_THRD_SET_MEM ? (uint8_t)cs_range(cs, 0, cfg->phase == 0 ? 2 : 4) : 0;
+        if ((o->kind == OP_VIOL_STR || o->kind == OP_VIOL_MEM) && cfg->phase) o->h = (uint8_t)cs_range(cs, 0, 3); /* which constraint is violated: every report site must dispatch by the function's own kind */
         if (o->kind == OP_SPAWN) { if (nthreads < c->maxt) nthreads++; else o->kind = OP_VIOL_STR; }
     }
     return 1;
@@ -76,8 +77,22 @@ static void do_op(int tid, int op, int h) {
     case OP_SET_MEM: t->ret = (long)set_mem_constraint_handler_s(HT[h]); break;
     case OP_THRD_SET_STR: t->ret = (long)thrd_set_str_constraint_handler_s(HT[h]); break;
     case OP_THRD_SET_MEM: t->ret = (long)thrd_set_mem_constraint_handler_s(HT[h]); break;
-    case OP_VIOL_STR: t->ret = _strcpy_s_chk(NULL, 10, "a", BOS_UNKNOWN); break;
-    case OP_VIOL_MEM: { char s[2] = "a"; t->ret = _memcpy_s_chk(NULL, 10, s, 1, BOS_UNKNOWN, BOS_UNKNOWN); break; }
+    case OP_VIOL_STR: {
+        char d[8] = "x", s2[4] = "abc";
+        if (h == 1) t->ret = _strcat_s_chk(d, 0, "a", BOS_UNKNOWN);                            /* dmax 0 */
+        else if (h == 2) t->ret = _strncpy_s_chk(d, 8, s2, 6, BOS_UNKNOWN, sizeof s2);         /* slen above the known source size */
+        else if (h == 3) { t->ret = _sprintf_s_chk(d, 8, BOS_UNKNOWN, NULL); if (t->ret < 0) t->ret = -t->ret; } /* null format */
+        else t->ret = _strcpy_s_chk(NULL, 10, "a", BOS_UNKNOWN);
+        break;
+    }
+    case OP_VIOL_MEM: {
+        char s[2] = "a", d[8] = "x", s4[4] = "abc";
+        if (h == 1) t->ret = _memset_s_chk(d, 4, 1, 9, BOS_UNKNOWN);                           /* n above dmax */
+        else if (h == 2) t->ret = _memcpy_s_chk(d, 8, s4, 6, BOS_UNKNOWN, sizeof s4);         /* slen above the known source size */
+        else if (h == 3) t->ret = _memmove_s_chk(d, 0, s, 1, BOS_UNKNOWN, BOS_UNKNOWN);        /* dmax 0 */
+        else t->ret = _memcpy_s_chk(NULL, 10, s, 1, BOS_UNKNOWN, BOS_UNKNOWN);
+        break;
+    }
     case OP_SPAWN: {
         int n = t->spawn_tid;
         T[n].alive = 1; T[n].quit = 0;
